@@ -60,6 +60,8 @@ def _values(fails):
     return vals
 
 
+NABE = {"pre": "predo", "rm": "remark", "ren": "rendo", "em": "enmark", "en": "endo", "re": "redo", "af": "afdo",
+        "ex": "exdo", "rex": "rexdo"}
 KINDS = ["pre", "rm", "ren", "em", "en", "re", "af", "go", "ex", "rex"]
 K = {k: i for i, k in enumerate(KINDS)}
 ATTR = {"pre": "preacts", "rm": "remarks", "ren": "renacts", "em": "enmarks", "en": "enacts", "re": "reacts",
@@ -165,6 +167,19 @@ def directed():
              ops=[["start", 3, []], ["pass", [[0, 0, 4]], []], ["end"]]),
         dict(f5, decl=[[0, "none"], [1, "name"], [2, "obj"], [3, "default"], [4, "name"]],
              ops=[["start", 2, []], ["pass", [[2, 0, 3]], []], ["end"]]),
+        # acts declared with the verbs: be / do without nabe= under at("exdo"), at("rexdo"), at("rendo"), at("predo"), ...
+        dict(forest([None, 0, 0], counts=[[1, 1, 1, 1, 1, 1, 1, 1, 1, 1]] * 3),
+             decl=[[0, "none"], [1, "name"], [2, "default"]],
+             verbs={"godest": [[0, 0, 2], [1, 0, 2], [2, 0, 1]],
+                    "stmts": [[["at", "ex"], ["be", "ex", 0, False], ["at", "rex"], ["be", "rex", 0, False], ["at", "ren"],
+                               ["do", "ren", 0, False], ["be", "rm", 0, True], ["at", "native"], ["be", "en", 0, False],
+                               ["do", "em", 0, True], ["at", "pre"], ["do", "pre", 0, False], ["at", "re"], ["be", "re", 0, False],
+                               ["at", "af"], ["do", "af", 0, False], ["go", 0, 2]]] +
+                              [[["do", "en", 0, False], ["at", "ex"], ["be", "ex", 0, False], ["be", "rex", 0, True],
+                                ["at", "pre"], ["be", "pre", 0, False], ["do", "rm", 0, True], ["do", "ren", 0, True],
+                                ["be", "em", 0, True], ["do", "re", 0, True], ["be", "af", 0, True], ["go", 0, d]]
+                               for d in (2, 1)]},
+             ops=[["start", 1, []], ["pass", [[1, 0, 2]], []], ["pass", [[2, 0, 1]], [[1, 0, 1]]], ["pass", [[0, 0, 2]], []], ["end"]]),
         # cross-tree transition, ops after the end are ignored
         dict(two, ops=[["start", 0, []], ["pass", [[0, 0, 2]], []], ["pass", [[1, 0, 0]], []], ["end"], ["pass", [], []], ["end"]]),
         # pass before start
@@ -308,8 +323,68 @@ def declared_case(rng):
     return dict(f, ops=ops, decl=declare(rng, f, 0.85))
 
 
+def verb_statements(rng, f, godest):
+    """per box: at(ctx) / do / be statements (with or without explicit nabe=) filing every act of the box under its
+    context, acts of one context in index order, plus one go per goact"""
+    out = []
+    for b in range(len(f["overs"])):
+        pend = {k: 0 for k in NABE}
+        todo = [k for k in NABE for _ in range(f["counts"][b][K[k]])]
+        gos = [["go", j, godest[(b, j)]] for j in range(f["counts"][b][K["go"]])]
+        stmts, ctx = [], "native"
+        while todo:
+            k = rng.choice(todo)
+            todo.remove(k)
+            explicit = rng.random() < 0.4
+            if not explicit:
+                ok_native = ctx == "native" and k == "en"
+                if ctx != k and not ok_native:
+                    stmts.append(["at", k]); ctx = k
+                elif rng.random() < 0.1:
+                    stmts.append(["at", k]); ctx = k
+            elif rng.random() < 0.3:
+                other = rng.choice(list(NABE) + ["native"])       # an unrelated context is current; nabe= overrides it
+                stmts.append(["at", other]); ctx = other
+            stmts.append([rng.choice(["do", "be"]), k, pend[k], explicit])
+            pend[k] += 1
+            if gos and rng.random() < 0.3:
+                stmts.append(gos.pop(0))
+        out.append(stmts + gos)
+    return out
+
+
+def verb_case(rng):
+    n = rng.choice([2, 3, 4, 5, 6])
+    overs = [None if (i == 0 or rng.random() < 0.3) else rng.randrange(i) for i in range(n)]
+    counts = [[rng.choice([0, 1, 1, 2]) for _ in range(10)] for _ in range(n)]
+    for c in counts:
+        c[K["go"]] = rng.choice([0, 1, 2])
+    f = forest(overs, lambda b, us: rng.sample(us, len(us)), counts)
+    godest = {(b, j): rng.randrange(n) for b in range(n) for j in range(counts[b][K["go"]])}
+    first = rng.randrange(n)
+    ops = [["start", first, []]]
+    active = first
+    for _ in range(rng.choice([1, 2, 3, 4])):
+        gos, fails = [], []
+        for b in spec_pile(f, active):
+            for j in range(counts[b][K["go"]]):
+                if rng.random() < 0.4:
+                    gos.append([b, j, godest[(b, j)]])
+        for g in gos:
+            if rng.random() < 0.25:
+                tgt = rng.choice(spec_pile(f, g[2]))
+                if counts[tgt][K["pre"]]:
+                    fails.append([tgt, rng.randrange(counts[tgt][K["pre"]]), rng.randrange(len(PVALUES))])
+        ops.append(["pass", gos, fails])
+        active = _expected_pass(f, active, gos, fails)[1]
+    ops.append(["end"])
+    return dict(f, ops=ops, decl=declare(rng, f, 0.5),
+                verbs={"stmts": verb_statements(rng, f, godest), "godest": [[b, j, d] for (b, j), d in sorted(godest.items())]})
+
+
 def generate(rng, tier):
     out = [random_case(rng) for _ in range(700 if tier == "quick" else 6000)]
+    out += [verb_case(rng) for _ in range(250 if tier == "quick" else 2500)]
     out += [declared_case(rng) for _ in range(200 if tier == "quick" else 2000)]
     if tier == "quick":
         out += list(exhaustive_cases(3))
@@ -325,13 +400,37 @@ def run_impl(case):
     from hio.base.hier import Bag
     n = len(case["overs"])
     trace, cur = [], {"gos": {}, "fails": {}}
-    built = None
+    built, built_acts = None, None
     if case.get("decl"):
         # the boxwork is declared through Boxer.make() and the bx verb: over by name, by object, None, or default
         maker = Boxer(name="mkr")
 
+        verbs = case.get("verbs")
+
+        def tracer(**io):
+            """deed of a do-act / rhs of a be-act: records the call; a precondition returns its scripted value"""
+            trace.append([io["k"], io["b"], io["j"]])
+            if io["k"] == K["pre"]:
+                c = cur["fails"].get((io["b"], io["j"]))
+                return True if c is None else PVALUES[c]()
+            return True
+
+        from hio.base.hier.needing import Need
+
+        class TraceNeed(Need):
+            """the need of a go-transition: records its evaluation, fires when scripted for this pass"""
+            def __init__(self, b, j, **kwa):
+                super().__init__(**kwa)
+                self.ident = [K["go"], b, j]
+
+            def __call__(self, **iops):
+                trace.append(list(self.ident))
+                return cur["gos"].get((self.ident[1], self.ident[2])) is not None
+
         def fun(H, bx, go, do, on, at, be):
             made = {}
+            if verbs:
+                H["c25"] = Bag()
             for b, mode in case["decl"]:
                 ov = case["overs"][b]
                 if mode == "name":
@@ -342,6 +441,21 @@ def run_impl(case):
                     made[b] = bx(name=f"b{b}", over=None)
                 else:
                     made[b] = bx(name=f"b{b}")
+                if not verbs:
+                    continue
+                # the acts of this box through the public verbs: at(context), do / be with or without nabe=, go
+                for st in verbs["stmts"][b]:
+                    if st[0] == "at":
+                        at(NABE[st[1]] if st[1] != "native" else "native")
+                    elif st[0] == "go":
+                        go(f"b{st[2]}", TraceNeed(b, st[1], hold=H))
+                    else:
+                        verb, kind, j, explicit = st
+                        kw = dict(nabe=NABE[kind]) if explicit else {}
+                        if verb == "do":
+                            do(tracer, k=K[kind], b=b, j=j, **kw)
+                        else:
+                            be("c25.value", tracer, k=K[kind], b=b, j=j, **kw)
         maker.make(fun)
         boxes = [maker.boxes[f"b{i}"] for i in range(n)]
         idx = {id(b): i for i, b in enumerate(boxes)}
@@ -350,12 +464,22 @@ def run_impl(case):
                  for b, _ in case["decl"]]
         for b in boxes:
             b._pile = None      # piles are traced again after the links were inspected
+        if verbs:
+            def ident(a):
+                if hasattr(a, "need") and hasattr(a.need, "ident"):
+                    return list(a.need.ident)
+                io = getattr(a, "iops", {})
+                return [io.get("k", -1), io.get("b", -1), io.get("j", -1)]
+            built_acts = [[i, [[K[kind], [ident(a) for a in getattr(bx_, ATTR[kind])]] for kind in KINDS]]
+                          for i, bx_ in enumerate(boxes)]
     else:
         boxes = [Box(name=f"b{i}") for i in range(n)]
         for i, b in enumerate(boxes):
             b.over = boxes[case["overs"][i]] if case["overs"][i] is not None else None
             b.unders = [boxes[u] for u in case["unders"][i]]
     for i, b in enumerate(boxes):
+        if case.get("verbs"):
+            break           # the acts were declared with the verbs
         for kind in KINDS:
             lst = getattr(b, ATTR[kind])
             for j in range(case["counts"][i][K[kind]]):
@@ -409,7 +533,7 @@ def run_impl(case):
             drive(lambda: gen.send(tyme))
         obs.append({"status": list(status), "trace": [list(e) for e in trace]})
     # last element: what bx built, per declared box [box, over, unders, pile] (None when the boxes were linked directly)
-    obs.append({"built": built})
+    obs.append({"built": built, "acts": built_acts})
     return obs
 
 
@@ -452,12 +576,19 @@ def _expected_pass(case, active, gos, fails):
 
 
 def oracle(case, obs):
-    built, obs = obs[-1]["built"], obs[:-1]
+    built, acts, obs = obs[-1]["built"], obs[-1].get("acts"), obs[:-1]
     if built is not None:
         for b, ov, un, pile in built:
             if ov != case["overs"][b] or un != case["unders"][b] or pile != spec_pile(case, b):
                 return (f"bx built box {b} with over {ov}, unders {un}, pile {pile}; declared: over {case['overs'][b]}, "
                         f"unders {case['unders'][b]}, pile {spec_pile(case, b)} (declarations {case['decl']})")
+    if acts is not None:
+        for b, lists in acts:
+            for k, got in lists:
+                want = [[k, b, j] for j in range(case["counts"][b][k])]
+                if got != want:
+                    return (f"the verbs filed under {KINDS[k]} of box {b}: {got}; declared: {want} "
+                            f"(statements {case['verbs']['stmts'][b]})")
     if not consistent(case):
         return None          # the property speaks about box trees
     status = ["idle"]
@@ -557,7 +688,7 @@ def to_coq(case, obs):
         coq_list([coq_option(o, str, "nat") for o in case["overs"]], "option nat"),
         coq_list([coq_list(map(str, u), "nat") for u in case["unders"]], "list nat"),
         coq_list([coq_list(map(str, c), "nat") for c in case["counts"]], "list nat")))
-    built, obs = obs[-1]["built"], obs[:-1]
+    built, acts, obs = obs[-1]["built"], obs[-1].get("acts"), obs[:-1]
     ob = coq_list(["(%s, %s)" % (_status(o["status"]), coq_list([f"Box.E {k} {b} {j}" for k, b, j in o["trace"]], "Box.ev"))
                    for o in obs], "Box.status * list Box.ev")
     mode = {"name": lambda b: f"(Box.MExplicit {case['overs'][b]})", "obj": lambda b: f"(Box.MExplicit {case['overs'][b]})",
@@ -565,8 +696,24 @@ def to_coq(case, obs):
     decl = coq_list([f"({b}, {mode[m](b)})" for b, m in case.get("decl") or []], "nat * Box.omode")
     bl = coq_list(["(%d, %s, %s)" % (b, coq_option(ov, str, "nat"), coq_list([str(max(u, 0) if u >= 0 else 999) for u in un], "nat"))
                    for b, ov, un, _ in (built or [])], "nat * option nat * list nat")
-    return "{| Box.c_forest := %s; Box.c_ops := %s; Box.c_obs := %s; Box.c_decl := %s; Box.c_built := %s |}" % (
-        fo, coq_list([_op(o) for o in case["ops"]], "Box.op"), ob, decl, bl)
+    stmts, filed = [], []
+    if case.get("verbs") and acts is not None:
+        for b, ss in enumerate(case["verbs"]["stmts"]):
+            row = []
+            for st in ss:
+                if st[0] == "at":
+                    row.append(f"(Box.SAt {0 if st[1] == 'native' else K[st[1]] + 1})")
+                elif st[0] != "go":
+                    _, kind, j, explicit = st
+                    row.append("(Box.SAct %s %d %d)" % (f"(Some {K[kind] + 1})" if explicit else "None", K[kind], j))
+            stmts.append(coq_list(row, "Box.stmt"))
+        for b, lists in acts:
+            filed.append(coq_list(["(%d, %s)" % (k + 1, coq_list([f"({a[0]}, {a[2]})" for a in got], "nat * nat"))
+                                   for k, got in lists if k != K["go"]], "nat * list (nat * nat)"))
+    return ("{| Box.c_forest := %s; Box.c_ops := %s; Box.c_obs := %s; Box.c_decl := %s; Box.c_built := %s; "
+            "Box.c_stmts := %s; Box.c_filed := %s |}" % (
+                fo, coq_list([_op(o) for o in case["ops"]], "Box.op"), ob, decl, bl,
+                coq_list(stmts, "list Box.stmt"), coq_list(filed, "list (nat * list (nat * nat))")))
 
 
 def distribution(cases, obs):
